@@ -84,6 +84,8 @@ def run(ck, facts):
     ck.rule("R1", "every panic!/unreachable!/unimplemented!/todo! arm that is selected by a real variant of an HIR (or backend-local) enum is triaged in spec/panic_arms.json as excluded-by-property, impossible-by-type, impossible-by-gate, guarded or finding; a new such arm must be triaged")
     ck.rule("R2", "triage cross-check: arms classed impossible-by-gate name a gate cell, which the abstract interpretation of the gate confirms is rejected / never constructed for that backend profile")
     ck.rule("R3", "HIR-data-dependent unwrap/expect sites in the backends equal the triaged inventory (assumptions about the HIR's shape must be visible)")
+    ck.rule("R5", "producer/consumer agreement for the JS allocator: generate_method supplies an allocator for every parameter type whose conversion arm unwraps one "
+                  "(struct, DiplomatOption under the spec ABI; slices take the other branch); lifetime indices are looked up in the environment they index (shares C04.R6)")
     ck.rule("R4", "producer/consumer agreement for optional template data: nanobind computes parameter declarations for every type kind whose templates unwrap them")
     ck.not_decided += ["index/slice panics and arithmetic overflow", "panics selected by identifier values rather than shapes (reserved type names, duplicate file names)"]
 
@@ -213,3 +215,46 @@ def run(ck, facts):
         fl = tmpl.flat_file(rel, resolve_includes=False)
         m = re.search(r"let\s+is_self_opaque\s*=\s*(true|false)", fl)
         ck.expect(bool(m) and m.group(1) == want, "R4", rel + "/is_self_opaque", want, "template %s sets is_self_opaque = %s (expected %s)" % (rel, m.group(1) if m else None, want), "tool/templates/" + rel)
+
+
+    # ---------------- R5 JS allocator producer / consumer
+    tool = facts.tool
+    adts = facts.all_adts()
+    conv = next(iter(tool.fns_matching(r"::js::converter::.*::gen_js_to_c_for_type$")), None)
+    gm = next(iter(tool.fns_matching(r"::js::gen::.*::generate_method$")), None) or next(iter(tool.fns_matching(r"::js::.*::generate_method$")), None)
+    if not conv or not gm:
+        ck.bad("R5", "js/anchors", "gen_js_to_c_for_type / generate_method not found")
+    else:
+        consumers = set()
+        mt = next((n for n in C.walk(C.fn_body(conv)) if n.get("k") == "match" and (n.get("sadt") or "").endswith("hir::types::Type")), None)
+        if mt:
+            for arm in mt["arms"]:
+                needs = any(x.get("k") == "mcall" and x.get("m") in ("unwrap", "expect", "unwrap_or_else") and C.strip(x["recv"]).get("k") == "local" and C.strip(x["recv"]).get("n") == "alloc"
+                            for x in C.walk(arm["b"]))
+                if needs:
+                    pv = arm["pat"]
+                    for v in [pv.get("v")] + [a_.get("v") for a_ in pv.get("alts", []) or []]:
+                        if v:
+                            consumers.add(v.split("::")[-1])
+        ck.expect(consumers == {"Struct", "DiplomatOption", "Slice"}, "R5", "js::gen_js_to_c_for_type/allocator-consumers", str(sorted(consumers)),
+                  "conversion arms that unwrap the allocator are now %s (triaged: DiplomatOption, Slice, Struct)" % sorted(consumers), C.loc(conv))
+        prod = None
+        scrut_ok = False
+        for n in C.walk(C.fn_body(gm)):
+            if n.get("k") == "letst" and isinstance(n.get("pat"), dict) and n["pat"].get("n") == "alloc" and n.get("init"):
+                iff = C.strip(n["init"])
+                if iff.get("k") != "if":
+                    continue
+                mm = next((x for x in C.walk(iff["c"]) if x.get("k") == "match"), None)
+                yields_some = any((x.get("ctor") or x.get("p") or "").endswith("Option::Some") for x in C.walk(iff["t"]))
+                if mm and yields_some:
+                    sc = C.strip(mm.get("s") or mm.get("e") or {})
+                    scrut_ok = sc.get("k") == "field" and sc.get("n") == "ty"
+                    prod = sorted({v.variant for v, hits in C.decision_table(mm, adts, "diplomat_core::hir::types::Type") if hits and hits[0][0] == 0 and v.variant})
+        need = sorted(consumers - {"Slice"})
+        ck.expect(prod is not None and scrut_ok and set(need) <= set(prod), "R5", "js::generate_method/allocator-producers", "allocator for %s (param.ty itself)" % prod,
+                  "generate_method supplies an allocator for %s of %s, but the conversion unwraps one for %s: an accepted parameter (e.g. Option<u8> under js.abi = \"spec\") reaches "
+                  "`Expected an allocator to be specified`" % (prod, "param.ty" if scrut_ok else "a derived type (not param.ty itself)", need), C.loc(gm))
+    import c04
+    sub = C.SubCheck(ck, "R5", "", ["R6"])
+    c04.run(sub, facts)
